@@ -397,22 +397,47 @@ func firstIdent(ts []tb, from, to int) int {
 	return -1
 }
 
-func (h *hist) noteAppend(b *mBody, before []tb, p int) {
-	if p <= 0 || p > len(before) || isLineEnd(before[p-1]) || h.cause != "" {
+// noteAppend records (in slot: the history's cause, or the pending cause of a detached block) that an item
+// was appended right after a token that does not end a line.
+func noteAppend(slot *string, b *mBody, before []tb, p int) {
+	if p <= 0 || p > len(before) || isLineEnd(before[p-1]) || *slot != "" {
 		return
 	}
 	if b.owner == nil {
-		h.cause = causeUntermLn
+		*slot = causeUntermLn
 	} else {
-		h.cause = causeOneLine
+		*slot = causeOneLine
 	}
+}
+
+func subtreePending(blk *mBlock) string {
+	if blk.pending != "" {
+		return blk.pending
+	}
+	for _, x := range blk.body.blocks {
+		if p := subtreePending(x); p != "" {
+			return p
+		}
+	}
+	return ""
+}
+
+// topDetached: the outermost block around the body that is not part of the file (nil: the body is in the file).
+func topDetached(b *mBody) *mBlock {
+	for b.owner != nil {
+		if b.owner.parent == nil {
+			return b.owner
+		}
+		b = b.owner.parent
+	}
+	return nil
 }
 
 // noteRemove: the removed span starts with a comment that ends the line of the token before it (the
 // comment after a block's opening brace is held by the block's first item as a lead comment).
-func (h *hist) noteRemove(before []tb, s int) {
-	if s > 0 && s < len(before) && !isLineEnd(before[s-1]) && before[s].T == hclsyntax.TokenComment && isLineEnd(before[s]) && h.cause == "" {
-		h.cause = causeRemoveCmt
+func noteRemove(slot *string, before []tb, s int) {
+	if s > 0 && s < len(before) && !isLineEnd(before[s-1]) && before[s].T == hclsyntax.TokenComment && isLineEnd(before[s]) && *slot == "" {
+		*slot = causeRemoveCmt
 	}
 }
 
@@ -455,12 +480,45 @@ func (h *hist) step(op Op) {
 	if body == nil {
 		badOp(op, "unknown body")
 	}
+	// The scope of the token frame: the file or, for a body or block that is not part of the file, the
+	// outermost detached block around it (whose edits must leave the file alone).
+	var top *mBlock
+	switch op.Op {
+	case "newdetached":
+	case "setlabels", "settype":
+		if blk := h.blocks[op.Block]; blk != nil {
+			if blk.parent == nil {
+				top = blk
+			} else {
+				top = topDetached(blk.parent)
+			}
+		}
+	default:
+		top = topDetached(body)
+	}
+	scope := func() hclwrite.Tokens {
+		if top != nil {
+			return top.h.BuildTokens(nil)
+		}
+		return h.f.BuildTokens(nil)
+	}
 	var all hclwrite.Tokens
-	if !h.guard("buildtokens", func() { all = h.f.BuildTokens(nil) }) {
+	var fileBefore []tb
+	if !h.guard("buildtokens", func() {
+		all = scope()
+		if top != nil {
+			fileBefore = tbs(h.f.BuildTokens(nil))
+		}
+	}) {
 		return
 	}
 	before := tbs(all)
-	live := body.attached()
+	// where a harmful situation is recorded: for the file in the history, for a detached scope on the block
+	// whose body is edited (it stays damaged wherever it is attached later)
+	slot := &h.cause
+	if top != nil && body.owner != nil {
+		slot = &body.owner.pending
+	}
 	var fr *frame
 	var apply func()
 	var after func() // model update
@@ -505,8 +563,6 @@ func (h *hist) step(op Op) {
 		_, exists := body.attrs[op.Name]
 		res.Count("op:" + op.Op + map[bool]string{true: "-existing", false: "-new"}[exists])
 		switch {
-		case !live:
-			fr = unchanged(op.Op+"-detached", before)
 		case exists:
 			fr = &frame{kind: op.Op + "-existing"}
 			wa := body.h.GetAttribute(op.Name)
@@ -548,14 +604,14 @@ func (h *hist) step(op Op) {
 		_, exists := body.attrs[op.Name]
 		res.Count("op:remove" + map[bool]string{true: "-existing", false: "-absent"}[exists])
 		fr = unchanged("remove-absent", before)
-		if exists && live {
+		if exists {
 			fr = &frame{kind: "remove"}
 			wa := body.h.GetAttribute(op.Name)
 			if wa == nil {
 				fr.invalid = fmt.Sprintf("GetAttribute(%q) is nil for an attribute the model holds", op.Name)
 			} else if s, e, ok := locate(all, wa.BuildTokens(nil)); ok {
 				fr.exact = [][]tb{splice(before, s, e, nil)}
-				h.noteRemove(before, s)
+				noteRemove(slot, before, s)
 			} else {
 				fr.invalid = fmt.Sprintf("the tokens of attribute %q are not a contiguous part of the file's tokens", op.Name)
 			}
@@ -578,7 +634,7 @@ func (h *hist) step(op Op) {
 		okRename := from && !to
 		res.Count("op:rename" + map[bool]string{true: "-effective", false: "-noop"}[okRename])
 		fr = unchanged("rename-noop", before)
-		if okRename && live {
+		if okRename {
 			fr = &frame{kind: "rename"}
 			wa := body.h.GetAttribute(op.Name)
 			if wa == nil {
@@ -617,8 +673,7 @@ func (h *hist) step(op Op) {
 		res.Count("op:newblock")
 		item := append([]tb{identTB(op.Type)}, labelTBs(op.Labels)...)
 		item = append(item, tbOBrace, tbNewline, tbCBrace, tbNewline)
-		fr = unchanged("newblock-detached", before)
-		if live {
+		{
 			ps, ok := h.insertionPoints(all, body)
 			if !ok {
 				fr = &frame{kind: "newblock", invalid: "the body's tokens are not a contiguous part of the file's tokens"}
@@ -652,12 +707,14 @@ func (h *hist) step(op Op) {
 			badOp(op, "attach needs a detached block and a body outside it")
 		}
 		res.Count("op:attach")
-		fr = unchanged("attach-detached", before)
-		if live {
+		{
 			item := tbs(blk.h.BuildTokens(nil))
-			if len(item) > 0 && !isLineEnd(item[len(item)-1]) && h.cause == "" {
+			if p := subtreePending(blk); p != "" && *slot == "" {
+				*slot = p // the block was damaged while it was detached
+			}
+			if len(item) > 0 && !isLineEnd(item[len(item)-1]) && *slot == "" {
 				// a block parsed from a last line without newline carries no line end of its own
-				h.cause = causeUntermLn
+				*slot = causeUntermLn
 			}
 			ps, ok := h.insertionPoints(all, body)
 			if !ok {
@@ -681,11 +738,11 @@ func (h *hist) step(op Op) {
 		member := blk.parent == body
 		res.Count("op:removeblock" + map[bool]string{true: "-member", false: "-foreign"}[member])
 		fr = unchanged("removeblock-foreign", before)
-		if member && live {
+		if member {
 			fr = &frame{kind: "removeblock"}
 			if s, e, ok := locate(all, blk.h.BuildTokens(nil)); ok {
 				fr.exact = [][]tb{splice(before, s, e, nil)}
-				h.noteRemove(before, s)
+				noteRemove(slot, before, s)
 			} else {
 				fr.invalid = "the block's tokens are not a contiguous part of the file's tokens"
 			}
@@ -714,9 +771,7 @@ func (h *hist) step(op Op) {
 			badOp(op, "unknown block")
 		}
 		res.Count("op:" + op.Op)
-		blive := blk.parent != nil && blk.parent.attached()
-		fr = unchanged(op.Op+"-detached", before)
-		if blive {
+		{
 			fr = &frame{kind: op.Op}
 			s, e, ok := locate(all, blk.h.BuildTokens(nil))
 			ti := -1
@@ -765,8 +820,7 @@ func (h *hist) step(op Op) {
 
 	case "newline":
 		res.Count("op:newline")
-		fr = unchanged("newline-detached", before)
-		if live {
+		{
 			ps, ok := h.insertionPoints(all, body)
 			if !ok {
 				fr = &frame{kind: "newline", invalid: "the body's tokens are not a contiguous part of the file's tokens"}
@@ -781,7 +835,7 @@ func (h *hist) step(op Op) {
 		badOp(op, "unknown operation")
 	}
 
-	if !live {
+	if top != nil {
 		res.Count("target:detached")
 	} else if body.owner != nil {
 		res.Count("target:nested")
@@ -793,21 +847,32 @@ func (h *hist) step(op Op) {
 		return
 	}
 	var got []tb
-	if !h.guard("buildtokens", func() { got = tbs(h.f.BuildTokens(nil)) }) {
+	var fileAfter []tb
+	if !h.guard("buildtokens", func() {
+		got = tbs(scope())
+		if top != nil {
+			fileAfter = tbs(h.f.BuildTokens(nil))
+		}
+	}) {
 		return
 	}
 	m := h.verify(fr, got)
 	if m < 0 {
 		return
 	}
+	if top != nil && !sameTBs(fileBefore, fileAfter) {
+		h.fail("tokens-mismatch:detached-edit-changed-file", "an edit of a block that is not part of the file changed the file's tokens: "+firstDiff(fileBefore, fileAfter), string(h.f.Bytes()))
+		h.stop = true
+		return
+	}
 	if len(fr.points) > 0 && (op.Op != "newline" || body.owner != nil) {
-		h.noteAppend(body, before, fr.points[m])
+		noteAppend(slot, body, before, fr.points[m])
 	}
 	after()
 	if h.stop {
 		return
 	}
-	h.check(!sameTBs(before, got))
+	h.check(top == nil && !sameTBs(before, got))
 }
 
 // ---------------------------------------------------------------------------
@@ -1115,7 +1180,7 @@ func runC12(cx *lib.Ctx) {
 	}
 
 	R := cx.R.Fork() // see props/c10: decorrelates consecutive seeds
-	n := cx.Scale(5000, 30000)
+	n := cx.Scale(5000, 40000)
 	maxOps := cx.Scale(30, 100)
 	for i := 0; i < n; i++ {
 		r := R.Fork()
@@ -1166,4 +1231,8 @@ var handCases = []string{
 	`{"init":{"kind":"parsed","src":"blk \"100%\" {\n}\n"},"ops":[]}`,
 	`{"init":{"kind":"parsed","src":"# c"},"ops":[{"op":"setval","body":0,"name":"c","val":{"t":"bool","v":true}}]}`,
 	`{"init":{"kind":"empty"},"ops":[{"op":"setval","body":0,"name":"m","val":{"t":["map","number"],"v":{"for":1}}}]}`,
+	`{"init":{"kind":"parsed","src":"blk { // c\n  a = 1\n  b = 2\n}\n"},"ops":[{"op":"remove","body":1,"name":"a"}]}`,
+	`{"init":{"kind":"empty"},"ops":[{"op":"newblock","body":0,"type":"x","labels":["a$${b}"]}]}`,
+	`{"init":{"kind":"parsed","src":"blk {}\n"},"ops":[{"op":"newline","body":1},{"op":"setval","body":1,"name":"c","val":{"t":"bool","v":true}}]}`,
+	`{"init":{"kind":"parsed","src":"# lead\na = foo.bar # line\n\n# detached\n\nb \"l\" {\n  c = 1 /* x */\n}\n"},"ops":[{"op":"rename","body":0,"name":"a","to":"z"},{"op":"setval","body":1,"name":"c","val":{"t":"string","v":"${x}"}},{"op":"removeblock","body":0,"block":1},{"op":"attach","body":0,"block":1},{"op":"remove","body":0,"name":"z"}]}`,
 }
